@@ -32,9 +32,7 @@ def bfs_histories(run, root_kind, nobj, maxh, rnd, sample_k):
     kinds = {h[-1]["a"] for h in out}
     ops = {h[-1]["op"]["op"] for h in out if h[-1]["a"] == "do"}
     run.cov.setdefault("bfs_ops_sampled", {})[root_kind] = sorted(ops)
-    for need in ("do", "nav", "ext"):
-        if need not in kinds:
-            run.machinery_error(f"action {need} never sampled from the MC_Contract BFS")
+    # (vacuity is judged on TLC's coverage of the actions below, not on the random sample)
     for a in ("DoAny", "NavAny", "Drop", "Ext"):
         if res.coverage.get(a, (0, 0))[1] == 0:
             run.machinery_error(f"action {a} of Contract.tla never taken (vacuous model)")
